@@ -146,7 +146,9 @@ func GenC10(verifSeed uint64, run int) *Scenario {
 // verifyTime: signatures are created at the simulated instant; verification
 // is done "later".
 func verifyCfg() *packet.Config {
-	t := time.Date(2040, 1, 1, 0, 0, 0, 0, time.UTC)
+	// "later" = a day after the simulated instant of signing: a signature
+	// dated before its key or after the verifier's clock does not verify
+	t := FakeEpoch.Add(SimNow).Add(24 * time.Hour)
 	return &packet.Config{Time: func() time.Time { return t }}
 }
 
@@ -225,6 +227,13 @@ func verifySigned(w *World, cfgText, format string, pkg []byte, calls [][]byte, 
 				fail("dpkg-sig clear signature does not verify: %v", err)
 			} else {
 				verified++
+			}
+			if p, ran := gpgvVerify(strings.Replace(pubPGP, ".asc", ".gpg", 1), nil, last.Data); ran {
+				if p != "" {
+					fail("dpkg-sig clear signature does not verify: %s", p)
+				} else {
+					verified++
+				}
 			}
 			// manifest lines must match the stored members
 			want := map[string]arMember{}
@@ -393,11 +402,26 @@ func gpgvVerify(pubKeyring string, data, sig []byte) (problem string, ran bool) 
 	if os.WriteFile(df, data, 0o600) != nil || os.WriteFile(sf, sig, 0o600) != nil {
 		return "", false
 	}
-	cmd := exec.Command(gpgv, "--ignore-time-conflict", "--keyring", filepath.Join(KeysDir, pubKeyring), sf, df)
+	args := []string{"--keyring", filepath.Join(KeysDir, pubKeyring), sf, df}
+	if data == nil {
+		args = []string{"--keyring", filepath.Join(KeysDir, pubKeyring), sf} // clear-signed: one file
+	}
+	// judge by gpgv's machine-readable status, not by its exit code (it exits
+	// 2 on warnings about the dpkg-sig layout although the signature is good):
+	// VALIDSIG is printed only for a signature that verified, including the
+	// time checks against the key and the clock
+	cmd := exec.Command(gpgv, append([]string{"--status-fd", "1"}, args...)...)
 	cmd.Env = []string{"GNUPGHOME=" + dir, "PATH=/usr/bin:/bin", "LC_ALL=C"}
-	out, err := cmd.CombinedOutput()
-	if err != nil {
-		return fmt.Sprintf("gpgv rejects the signature: %v: %s", err, strings.ReplaceAll(strings.TrimSpace(string(out)), "\n", " | ")), true
+	out, _ := cmd.CombinedOutput()
+	if !strings.Contains(string(out), "[GNUPG:] VALIDSIG") {
+		var keep []string
+		for _, l := range strings.Split(string(out), "\n") {
+			if strings.Contains(l, "radix64") || strings.TrimSpace(l) == "" {
+				continue
+			}
+			keep = append(keep, strings.TrimSpace(l))
+		}
+		return "gpgv does not report a valid signature: " + strings.Join(keep, " | "), true
 	}
 	return "", true
 }
